@@ -2,7 +2,7 @@
 From Coq Require Import List NArith ZArith.
 Import ListNotations.
 From Stam Require Import Model.Offset Model.Json Model.TempId Model.StamJson Spec.StamJsonSpec Proofs.StamJson Proofs.StamJsonSave
-     Proofs.StamJsonLoad Proofs.StamJsonAnn Proofs.StamJsonWhole.
+     Proofs.StamJsonLoad Proofs.StamJsonAnn Proofs.StamJsonWhole Proofs.StamJsonSub.
 
 (* THE PROPERTY.  For every well-formed store (Spec/StamJsonSpec.v wf_dstore: no dangling references,
    annotations refer to earlier annotations, ranges inside their text and their parent's range,
@@ -150,3 +150,12 @@ Example C05_roundtrip_nonvacuous :
                   | None => false end
       | None => false end) = true.
 Proof. split; vm_compute; reflexivity. Qed.
+
+(* sub-stores in the natural arrangement: the documents (sub-store 0 .. n-1, then the root), read one
+   after the other, hold the live resources / datasets / annotations of the store, each exactly once,
+   in the order of the store *)
+Theorem C05_documents_in_order : forall (X : Type) (nsubs : nat) (own : list (option nat)) (l : list (option X)),
+  (forall h k, owner_of own h = Some k -> k < nsubs) ->
+  natural_order nsubs own l = true ->
+  concat (map (fun k => pick own (Some k) (live l)) (seq 0 nsubs)) ++ pick own None (live l) = live l.
+Proof. exact @parts_in_order. Qed.
